@@ -30,6 +30,12 @@ SHAPES = {     # input shapes of C05 for finished runs (no fault): the plan / id
                                                 {'name': 's1', 'len': 99_999, 'big': False, 'kinds': ['pair']},
                                                 {'name': 's2', 'len': 99_999, 'big': False, 'kinds': ['half']}],
                                     'star': ['unplaced_single', 'unplaced_single']},
+    # legal SAM reference names containing * : | = ; - only the bare '*' is the unplaced bin
+    'special_contig_names': {'contigs': [{'name': 'HLA-A*01:01:01:01', 'len': 2500, 'big': False, 'kinds': ['pair', 'single']},
+                                         {'name': 'HLA-B*07:02', 'len': 250_000, 'big': True, 'kinds': ['pair_rev']},
+                                         {'name': 'un|k=1', 'len': 40_000, 'big': False, 'kinds': ['single']},
+                                         {'name': 'chr7:alt;2', 'len': 100_000, 'big': True, 'kinds': ['pair']}],
+                             'star': ['unplaced_single']},
     # C05-m1's shape: a pooled job of small contigs whose LAST contig has reads but writes no molecule
     'pooled_small_last_writes_nothing': {'contigs': [{'name': 'sA', 'len': 2500, 'big': False, 'kinds': ['pair', 'single']},
                                                      {'name': 'big', 'len': 250_000, 'big': True, 'kinds': ['pair']},
@@ -144,12 +150,22 @@ def make_case(cid, workdir, s, method, bamseed, mixed=False, damaged=None, shape
         argv[argv.index('-temp_folder') + 1] = os.path.join(cdir, 'no_such_dir')
     elif damaged == 'unsorted_path_blocked':    # <out>.bam.unsorted cannot be opened for writing
         os.makedirs(out + '.unsorted', exist_ok=True)
+    extra = {}
+    if damaged == 'input_replaced':             # history: an earlier run of this process tagged OTHER content at the same input path
+        import shutil
+        second = os.path.join(cdir, 'second.bam')
+        shutil.move(inp, second)
+        shutil.move(inp + '.bai', second + '.bai')
+        first = {'contigs': [dict(c, kinds=(['single'] if i == 0 else [])) for i, c in enumerate(layout['contigs'])], 'star': []}
+        tg.write(inp, first, random.Random(bamseed + 1), method)
+        inp_observed = second
+        extra = {'prerun_argv': list(argv), 'swap_from': second}
     fault, hang = fault_for(s)
     if fault and str(fault.get('target', '')).startswith('@'):
         fault['target'] = {'@unsorted': out + '.unsorted', '@out': out}[fault['target']]
-    return {'id': cid, 'argv': argv, 'out': out, 'inp': inp, 'inp_observed': inp_observed, 'truth': truth, 'layout': layout, 'scn': s, 'method': method,
+    return {**extra, 'id': cid, 'argv': argv, 'out': out, 'inp': inp, 'inp_observed': inp_observed, 'truth': truth, 'layout': layout, 'scn': s, 'method': method,
             'fault': fault, 'expect_hang': hang,
-            'prerun': bool(s['prev']) and damaged not in ('truncated_input', 'bad_temp_folder', 'unsorted_path_blocked'), 'bamseed': bamseed, 'mixed': mixed, 'damaged': damaged or '', 'shape': shape or '', 'snapshots': True, 'no_rejects': no_rejects,
+            'prerun': bool(s['prev']) and damaged not in ('truncated_input', 'bad_temp_folder', 'unsorted_path_blocked', 'input_replaced'), 'bamseed': bamseed, 'mixed': mixed, 'damaged': damaged or '', 'shape': shape or '', 'snapshots': True, 'no_rejects': no_rejects,
             'stale_old_index': bool(s['prev'])}
 
 
@@ -230,7 +246,7 @@ def main():
                 for pos in ('first', 'mid', 'last', 'star_untagged'):
                     for m in ('nla', 'chic'):
                         cases.append(make_case(len(cases) + 1, workdir, s, m, rng.randrange(1 << 30), damaged=pos))
-                for env_failure in ('truncated_input', 'index_missing', 'bad_temp_folder', 'unsorted_path_blocked'):
+                for env_failure in ('truncated_input', 'index_missing', 'bad_temp_folder', 'unsorted_path_blocked', 'input_replaced'):
                     if (env_failure == 'bad_temp_folder') != (s['pipeline'] == 'multi') and env_failure in ('bad_temp_folder', 'unsorted_path_blocked'):
                         continue
                     cases.append(make_case(len(cases) + 1, workdir, s, 'nla', rng.randrange(1 << 30), damaged=env_failure))
